@@ -249,8 +249,8 @@ def loops(chk, it, step_fn):
                 rfail = z3.And(z3.UGT(iters, 0), z3.UGT(this_end, frames[-1][1]))
             else:
                 rfail = z3.BoolVal(False)
-            chk.obligation('STEP/improperly-nested-loop-fails/' + nm, pcs, failed == rfail, inputs, replay=None,
-                           bound='loop stack depth %d' % len(frames))
+            chk.obligation('STEP/improperly-nested-loop-fails/' + nm, pcs, failed == rfail, inputs,
+                           replay=lambda mo, inputs=inputs: replay_nesting(chk, mo, inputs), bound='loop stack depth %d' % len(frames))
             # state before update_pc_state
             alts = []
             skip_pc = pc1 + z3.ZeroExt(48, k)
@@ -262,7 +262,8 @@ def loops(chk, it, step_fn):
             conj = []
             for cond, pcw, fr in alts:
                 conj.append(z3.Implies(cond, z3.And(post.fields[3] == pcw, frames_eq(post.fields[4], fr))))
-            chk.obligation('STEP/loop-entry-and-bookkeeping/' + nm, pcs + [z3.Not(rfail)], z3.And(conj), inputs, replay=None,
+            chk.obligation('STEP/loop-entry-and-bookkeeping/' + nm, pcs + [z3.Not(rfail)], z3.And(conj), inputs,
+                           replay=lambda mo, inputs=inputs: replay_nesting(chk, mo, inputs),
                            bound='loop stack depth %d, all u16 counts / lengths' % len(frames))
         each(chk, it, step_fn, st, mach, 'Loop/depth%d' % depth, inputs, body)
     # bookkeeping after an ordinary instruction (Noop) for frame stacks of depth 1 and 2: the loop lemma itself
@@ -281,6 +282,38 @@ def loops(chk, it, step_fn):
             chk.obligation('STEP/loop-lemma-after-an-instruction/' + nm, list(s.pc), z3.And(z3.Not(failed), z3.And(conj)), inputs,
                            replay=None, bound='loop stack depth %d' % len(frames))
         each(chk, it, step_fn, st, mach, 'Noop/frames%d' % depth, inputs, body)
+
+
+def replay_nesting(chk, model, inputs):
+    """whole programs around a Loop with the model's iteration count (and 1, 2, 3): improperly nested ones must fail, properly
+    nested ones must run their bodies exactly the stated number of times"""
+    ev = lambda t: harness.model_int(model, t)
+    counts = sorted(set([max(min(ev(inputs['iters']), 50), 0), 1, 2, 3]))
+    op = lambda v, *a: {'variant': v, 'args': [str(x) for x in a]}
+    bad_shapes = lambda a, b: [
+        ('inner loop overruns the outer body', [op('Loop', a, 2), op('Loop', b, 3), op('PushI', 1), op('PushI', 2), op('PushI', 3)]),
+        ('loop overruns an enclosing single-instruction body', [op('Loop', a, 1), op('Loop', b, 2), op('PushI', 1), op('PushI', 2)])]
+    for a in counts:
+        for b in counts:
+            if a == 0 or b == 0:
+                continue
+            for why, prog in bad_shapes(a, b):
+                out = harness.run_replay([{'kind': 'c10_run', 'program': prog}], 'dev')[0]
+                if 'error' in out:
+                    raise Inconclusive('replay: ' + out['error'])
+                if out.get('panicked') or not out.get('failed'):
+                    return True, {'program': prog}, {'why': why + ' but execution did not fail', 'outer': a, 'inner': b, 'native': out}
+    # properly nested: PushI 0; Loop(a, 3){ Loop(b, 2){ PushI 1; Add } } -> a*b
+    for a in counts:
+        for b in counts:
+            prog = [op('PushI', 0), op('Loop', a, 3), op('Loop', b, 2), op('PushI', 1), op('Add')]
+            out = harness.run_replay([{'kind': 'c10_run', 'program': prog}], 'dev')[0]
+            if 'error' in out:
+                raise Inconclusive('replay: ' + out['error'])
+            top = (out.get('top') or {}).get('int')
+            if out.get('panicked') or out.get('failed') or top != str(a * b):
+                return True, {'program': prog}, {'why': 'nested counted loops ran %s times, expected %d' % (top, a * b), 'native': out}
+    return False, {'programs': 'nesting family'}, {'all_consistent': True, 'counts': counts}
 
 
 def result_lemma(chk, it):
